@@ -35,7 +35,9 @@ def setCfg (st : St) (kv : String) : Option St :=
   match kv.splitOn "=" with
   | [k, v] =>
     match k with
-    | "pipe.applyChecksProposer" => do let b ← boolOfString? v; pure { st with pc := { st.pc with matchProposer := b } }
+    | "pipe.applyChecksProposer" => do let b ← boolOfString? v; pure { st with pc := { st.pc with matchProposer := st.pc.matchProposer && b } }
+    | "propose.stampsProposer" => do let b ← boolOfString? v; pure { st with pc := { st.pc with matchProposer := st.pc.matchProposer && b } }
+    | "peer.applyPartition" => pure { st with pc := { st.pc with applyEachOnce := v == "collectThenApplyOnce" } }
     | "pipe.completeDeletes" => do let b ← boolOfString? v; pure { st with pc := { st.pc with completeDeletes := b } }
     | "pipe.registerRejectsDup" => do let b ← boolOfString? v; pure { st with pc := { st.pc with regRejectsDup := b } }
     | "val.leaderOp" => do let o ← CmpOp.ofString? v; pure { st with vc := { st.vc with leaderOp := o } }
@@ -148,7 +150,7 @@ def specAllows (spec out : String) : Bool :=
   spec == "*" || (spec.splitOn "|").any fun alt =>
     if alt.endsWith "*" then out.startsWith (alt.dropEnd 1).toString else alt == out
 
-def oraclesOk : String := "agree=ok,once=ok,lin=ok,run=ok"
+def oraclesOk : String := "agree=ok,once=ok,lin=ok,stamp=ok,run=ok"
 
 /-- replay one block of observed events; the spec string shows the model's output wherever
 that output satisfies the event's specification and `want:<pattern>` where it does not -/
@@ -184,6 +186,9 @@ def clusterOp (toks : List String) : String :=
   | some "c.iso" => if validStore a then "ok" else "bad-op"
   | some "c.heal" => "ok"
   | some "c.wait" => "ok"
+  | some "c.proposeP" => if validStore a && validRegion b then "ok" else "bad-op"
+  | some "c.admin" => if validStore a && validRegion b then "ok" else "bad-op"
+  | some "c.stopread" => if validStore a && validRegion b then "ok" else "bad-op"
   | some "c.cfg" => "ok"
   | some "c.gate" => if validStore a then "ok" else "bad-op"
   | some "c.step" => if validStore a then "ok" else "bad-op"
